@@ -114,11 +114,31 @@ def propsViolated (w : W) (implD modelD : String) (implRes modelRes : String) : 
   let c07 := if ["xor", "ai", "ac", "ho", "ht", "hau", "hat", "hp"].any (fun k => field implD k != field modelD k) then ["C07"] else []
   c01 ++ c02 ++ c04 ++ c06 ++ c07
 
-def finish (w : W) (impl expected : String) (implD modelD implRes modelRes : String) : String × Verdict :=
-  if expected == impl then (impl, .hold)
+/-- `extra`: property predicates that are evaluated on the implementation's behaviour even when it agrees
+with the model (C03: hours created by an accepted block) -/
+def finish (w : W) (impl expected : String) (implD modelD implRes modelRes : String)
+    (extra : List String := []) : String × Verdict :=
+  if expected == impl && extra.isEmpty then (impl, .hold)
   else
-    let ps := propsViolated w implD modelD implRes modelRes
+    let ps := (if expected == impl then [] else propsViolated w implD modelD implRes modelRes) ++ extra
     (expected ++ " #props:" ++ ",".intercalate ps, if ps.isEmpty then .unknown else .fail)
+
+/-- C03 on an ACCEPTED block: output hours (summed in ℕ) must not exceed the hours the inputs accrued at
+the previous block's time (legacy exception counted as zero).  Tags: `C03[outhours-wrap]` when the ℕ sum
+leaves 64 bits (the unchecked `+=` of VerifyTransactionHoursSpending — known finding F14),
+`C03[hours-created]` for any other creation of hours. -/
+def c03Block (s : State) (b : Block) : List String :=
+  b.txns.foldl (fun acc t =>
+    if s.chain.isEmpty then acc else
+    let nat := (t.outs.map (·.hours)).foldl (· + ·) 0
+    match getArray s.unspent t.ins with
+    | .error _ => acc
+    | .ok uxIn =>
+      match hoursInLegacy (headTime s) uxIn 0 with
+      | .error _ => acc
+      | .ok hin =>
+        if nat ≥ 2^64 then (if acc.contains "C03[outhours-wrap]" then acc else acc ++ ["C03[outhours-wrap]"])
+        else if nat > hin then acc ++ ["C03[hours-created]"] else acc) []
 
 def step (w : W) (op impl : String) : W × String × Verdict :=
   let secs := sections impl
@@ -155,7 +175,8 @@ def step (w : W) (op impl : String) : W × String × Verdict :=
     let s' := match r with | .ok s' => s' | .error _ => s
     let w' := setNode w n s'
     let expected := pre' ++ "R" ++ code r ++ " " ++ digest s'
-    let (m, v) := finish w' impl expected (implDs.getD 0 "") (digest s') implRes (code r)
+    let extra := if implRes == "ok" then c03Block s b else []
+    let (m, v) := finish w' impl expected (implDs.getD 0 "") (digest s') implRes (code r) extra
     (w', m, v)
   | [inj, n, _] =>
     if inj == "injf" || inj == "inju" then
